@@ -8,6 +8,7 @@ from lib import corecase as cc
 from lib.coreprop import core_shards, run_core_shard, replay_core
 
 ID = "C01"
+REQUIRED_CLASSES = ['raw', 'raw_cross_port', 'raw_partial_be']      # classes that must occur in every run (else harness error: vacuous generator)
 LEVEL = "exploration"
 RULE = ("case = (controller configuration, per-port op lists with gaps/data lead) on controller+crossbar+reference DRAM; "
         "non-trivial = contains a read of an address written earlier (read-after-write), classes recorded: by another port, "
